@@ -232,3 +232,70 @@ Example C06_legacy_witnesses_now_rejected :
     c_validate_sigs fl wit_ks (wit_msg fl) [0%N; 1%N]
                     [wit_good fl 1%N; wit_good fl 4%N; SigMalformed] = Reject RSigCount.
 Proof. intros fl. pose proof (repaired_rejects_witnesses fl) as [A [_ [B _]]]. split; assumption. Qed.
+
+(* ---- second tie: the decision logic regenerated from the source ---------------------------
+   Generated/KeysSigFuns.v is rewritten from the repository on every run of this check
+   (harness/cmd/translate/gen_keyssigfuns.go): validateSignerIndices and
+   ValidateDecryptionKeysSignatures of both flavours, KeyperSet.GetSubset, the two
+   New...SignatureData constructors, ValidateDecryptionKeysBasic, the keyper's ValidateMessage
+   and the access node's ValidateMessage / validateGnosisFields, statement by statement, with
+   CheckSignature, shdb.DecodeAddress, the keyper-set lookup and validateCommonFields as
+   parameters. For every hash-tree-root function, keyper set (Go-representable length),
+   message, signer list and signature list, the translated functions - with the ideal
+   CheckSignature as the crypto parameter - return exactly the model's verdict, rejection class
+   included. A source change in a guard, a cast, the strictness of the order test, an index, a
+   loop bound, the pairing of signatures with signers or the fields handed to the signature
+   data breaks this obligation before any case is generated. *)
+From Verif Require Import Generated.KeysSigFuns Proofs.KeysSigFuns.
+Theorem C06_translated_validators_agree :
+  forall (H : Type) (H_eqb : H -> H -> bool) (hash : tuple -> H),
+    (forall ks m signers sigs,
+        (Z.of_nat (length (ks_keypers ks)) < 2 ^ 63)%Z ->
+        gen_gnosis_validate_sigs (fun k => k) (check_signature H H_eqb hash)
+                                 (ks_threshold ks) (ks_keypers ks)
+                                 (m_inst m) (m_eon m) (m_slot m) (m_txp m) (m_ids m)
+                                 (map Z.of_N signers) sigs
+        = validate_sigs H H_eqb hash Gnosis ks m signers sigs) /\
+    (forall ks m signers sigs,
+        (Z.of_nat (length (ks_keypers ks)) < 2 ^ 63)%Z ->
+        gen_service_validate_sigs (fun k => k) (check_signature H H_eqb hash)
+                                  (ks_threshold ks) (ks_keypers ks)
+                                  (m_inst m) (m_eon m) (m_slot m) (m_txp m) (m_ids m)
+                                  (map Z.of_N signers) sigs
+        = validate_sigs H H_eqb hash Service ks m signers sigs) /\
+    (forall st m signers sigs,
+        (forall ks, lookup_ks (an_keypersets st) (m_eon m) = Some ks ->
+                    (Z.of_nat (length (ks_keypers ks)) < 2 ^ 63)%Z) ->
+        gen_an_validate_message (fun k => k) (check_signature H H_eqb hash) (an_validate_common st m)
+          (option_map set_pair (lookup_ks (an_keypersets st) (m_eon m)))
+          (extra_is_gnosis (m_extra m)) (extra_gnosis_nil (m_extra m))
+          (m_inst m) (m_eon m) (m_slot m) (m_txp m) (m_ids m) (map Z.of_N signers) sigs
+        = an_validate H H_eqb hash st m signers sigs) /\
+    (forall lookup m signers sigs,
+        (forall ks, lookup = Some ks -> (Z.of_nat (length (ks_keypers ks)) < 2 ^ 63)%Z) ->
+        gen_keyper_validate_message (fun k => k) (check_signature H H_eqb hash) (option_map set_pair lookup)
+          (extra_is_gnosis (m_extra m)) (extra_gnosis_nil (m_extra m))
+          (m_inst m) (m_eon m) (m_slot m) (m_txp m) (m_ids m) (map Z.of_N signers) sigs
+        = keyper_validate_gnosis H H_eqb hash lookup m signers sigs).
+Proof.
+  intros H H_eqb hash.
+  exact (conj (gnosis_validate_sigs_agrees H H_eqb hash)
+        (conj (service_validate_sigs_agrees H H_eqb hash)
+        (conj (an_validate_message_agrees H H_eqb hash)
+              (keyper_validate_message_agrees H H_eqb hash)))).
+Qed.
+Print Assumptions C06_translated_validators_agree.
+
+(* the translated Gnosis validator, run on the witness message: accepts the two genuine
+   signatures, rejects a repeated signer index (the order test is strict) and one signature
+   too few *)
+Example C06_translated_nonvacuous :
+  let run signers sigs :=
+    gen_gnosis_validate_sigs (fun k => k) (check_signature tuple tuple_eqb (fun t => t))
+      (ks_threshold wit_ks) (ks_keypers wit_ks) 42%N 7%N 1000%N 3%N (m_ids (wit_msg Gnosis))
+      signers sigs in
+  run [0; 1]%Z [wit_good Gnosis 1%N; wit_good Gnosis 4%N] = Accept /\
+  run [0; 0]%Z [wit_good Gnosis 1%N; wit_good Gnosis 1%N] = Reject RDuplicate /\
+  run [1; 0]%Z [wit_good Gnosis 4%N; wit_good Gnosis 1%N] = Reject RUnordered /\
+  run [0; 1]%Z [wit_good Gnosis 1%N] = Reject RSigCount.
+Proof. vm_compute. repeat split; reflexivity. Qed.
